@@ -96,6 +96,7 @@ type opRec struct {
 	prio      core.PriorityLevel
 	kind      string
 	steps     []operator.OpStep
+	shared    []operator.OpStep // the operator's own step slice (same backing array)
 	stores    map[uint64]bool
 	executed  []bool
 	seen      []bool // executed, as of the last heartbeat of the region
@@ -162,6 +163,8 @@ type world struct {
 	start  time.Time
 	step   int
 	vclock int64 // virtual time, unix nanoseconds
+
+	raceTimeout bool
 
 	nonTrivial bool
 	classes    map[string]bool
@@ -363,7 +366,7 @@ func (w *world) event(op Op) error {
 	case "remove":
 		err = w.evRemove(ev, rs, op.Which)
 	case "exec":
-		w.evExec(ev, rs, op.NoHB)
+		w.evExec(ev, rs, op.NoHB, op.Race)
 	case "hb":
 		w.heartbeat(ev, rs)
 	case "lose":
@@ -409,14 +412,19 @@ func (w *world) evBuild(rs *regState, q *BuildReq) error {
 		return nil
 	}
 	var bundle []*opRec
-	for i, op := range ops {
+	for i, built := range ops {
+		// the same plan (steps, kind, epoch, priority) as an operator whose step slice the harness keeps a
+		// handle on: the concurrent round wraps an already finished step in a rendezvous (see raceRound)
+		shared := stepsOf(built)
+		op := operator.NewOperator(built.Desc(), "c09 "+q.Kind, built.RegionID(), built.RegionEpoch(), built.Kind(), shared...)
+		op.SetPriorityLevel(built.GetPriorityLevel())
 		r := rs
 		if i == 1 {
 			r = partner
 		}
 		// pos: the view may lag behind the store; everything after the view's heartbeat is "after the snapshot"
 		o := &opRec{idx: len(w.ops), op: op, rs: r, ep: epochOf(r.view), pos: r.viewLen, kind: q.Kind,
-			steps: stepsOf(op), stores: map[uint64]bool{}, last: operator.CREATED, created: w.now()}
+			steps: stepsOf(op), shared: shared, stores: map[uint64]bool{}, last: operator.CREATED, created: w.now()}
 		if !op.GetCreateTime().Equal(o.created) {
 			return w.errf("%s: create time %v, the clock says %v", o, op.GetCreateTime(), o.created)
 		}
@@ -656,7 +664,7 @@ func (w *world) newChild(parent *regState, sim *simkit.Region) {
 	w.byID[sim.ID] = ch
 }
 
-func (w *world) evExec(ev *evCtx, rs *regState, nohb bool) {
+func (w *world) evExec(ev *evCtx, rs *regState, nohb bool, race int) {
 	msgs := rs.inbox
 	rs.inbox = nil
 	hbOn := rs
@@ -732,7 +740,7 @@ func (w *world) evExec(ev *evCtx, rs *regState, nohb bool) {
 		}
 	}
 	if !nohb {
-		w.heartbeat(ev, hbOn)
+		w.heartbeat(ev, hbOn, race)
 	}
 }
 
@@ -892,12 +900,20 @@ func leaveTrigger(o *opRec, r *simkit.Region) (under, over bool) {
 	return under, over
 }
 
-func (w *world) heartbeat(ev *evCtx, rs *regState) {
+func (w *world) heartbeat(ev *evCtx, rs *regState, race ...int) {
 	if rs.sim.Merged {
 		return
 	}
 	if rs.view == nil && rs.parent != nil {
 		rs = rs.parent // a split-off region is first reported together with the region it was split from
+	}
+	// the step pd is waiting for, if the store executed it since the last heartbeat
+	raceStep := -1
+	raced := w.runningRec(rs)
+	if raced != nil && rs.view != nil && raced.op.Status() == operator.STARTED {
+		if k := raced.nextSeen(rs.view); k < len(raced.steps) && raced.executed[k] {
+			raceStep = k
+		}
 	}
 	rs.view = rs.sim.Clone()
 	rs.viewLen = len(rs.ledger)
@@ -921,7 +937,116 @@ func (w *world) heartbeat(ev *evCtx, rs *regState) {
 		}
 	}
 	w.class("event:heartbeat")
+	if len(race) > 0 && race[0] > 0 && raceStep >= 0 {
+		w.raceRound(ri, raced, raceStep, race[0])
+		return
+	}
 	w.oc.Dispatch(ri, schedule.DispatchFromHeartBeat)
+}
+
+// rendezvous wraps a finished step without changing its behaviour: the first
+// `want` callers that see it finished wait for each other inside IsFinish, i.e.
+// all of them are inside Operator.Check, have loaded the same currentStep and
+// have seen the step finished (what a heartbeat and the push ticker, or two
+// heartbeats, do when they notice a finished step at the same time).
+type rendezvous struct {
+	operator.OpStep
+	want     int32
+	arrivals int32
+	first    chan struct{}
+	release  chan struct{}
+	once     sync.Once
+	onceF    sync.Once
+	timedOut int32
+}
+
+func (s *rendezvous) open() { s.once.Do(func() { close(s.release) }) }
+
+func (s *rendezvous) IsFinish(region *core.RegionInfo) bool {
+	if !s.OpStep.IsFinish(region) {
+		return false
+	}
+	n := atomic.AddInt32(&s.arrivals, 1)
+	if n == 1 {
+		s.onceF.Do(func() { close(s.first) })
+	}
+	if n >= s.want {
+		s.open()
+		return true
+	}
+	select {
+	case <-s.release:
+	case <-time.After(10 * time.Second):
+		atomic.StoreInt32(&s.timedOut, 1)
+	}
+	return true
+}
+
+// raceRound: the heartbeat that reports a just executed step is dispatched
+// concurrently with the push ticker and/or a second dispatch.
+//
+//	mode 1: Dispatch || PushOperators   mode 2: Dispatch || Dispatch   mode 3: Dispatch || Dispatch || PushOperators
+//
+// Dispatch calls Operator.Check without the controller lock, PushOperators calls
+// it under the lock: the dispatches are started first, the ticker last, and a
+// ticker that does not reach the operator (another operator on top of its heap)
+// releases the others when it returns.
+func (w *world) raceRound(ri *core.RegionInfo, x *opRec, k int, mode int) {
+	dispatches, push := 1, true
+	switch mode {
+	case 2:
+		dispatches, push = 2, false
+	case 3:
+		dispatches = 2
+	}
+	rv := &rendezvous{OpStep: x.shared[k], want: int32(dispatches), first: make(chan struct{}), release: make(chan struct{})}
+	if push {
+		rv.want++
+	}
+	x.shared[k] = rv
+	var wg sync.WaitGroup
+	dDone := make(chan struct{}, dispatches)
+	for i := 0; i < dispatches; i++ {
+		wg.Add(1)
+		go func() {
+			defer wg.Done()
+			w.oc.Dispatch(ri, schedule.DispatchFromHeartBeat)
+			dDone <- struct{}{}
+		}()
+	}
+	if push {
+		// wait until a dispatch is inside Check (or all dispatches returned without looking at the step)
+		returned := 0
+		for waiting := true; waiting; {
+			select {
+			case <-rv.first:
+				if int(atomic.LoadInt32(&rv.arrivals))+returned >= dispatches {
+					waiting = false
+				} else {
+					runtime.Gosched()
+				}
+			case <-dDone:
+				returned++
+				waiting = returned < dispatches
+			}
+		}
+		wg.Add(1)
+		go func() {
+			defer wg.Done()
+			w.oc.PushOperators()
+			rv.open() // the ticker did not get to this operator: nobody else will arrive
+		}()
+	}
+	wg.Wait()
+	x.shared[k] = rv.OpStep
+	if atomic.LoadInt32(&rv.timedOut) != 0 {
+		w.raceTimeout = true
+	}
+	if atomic.LoadInt32(&rv.arrivals) >= 2 {
+		w.class(fmt.Sprintf("race:check-entered-concurrently(mode %d)", mode))
+	} else {
+		w.class("race:no-interleaving")
+	}
 }
 
 func (w *world) preJudge(x *opRec, rs *regState) *judge {
@@ -1070,7 +1195,7 @@ func (w *world) postJudge(ev *evCtx) error {
 // ---------------------------------------------------------------- messages
 
 func (w *world) collect(ev *evCtx) error {
-	if !w.barrier() {
+	if !w.barrier() || w.raceTimeout {
 		return errInconclusive
 	}
 	ev.msgs = map[*regState][]inMsg{}
